@@ -33,3 +33,30 @@ package deb
 //@ inline func createTriggers(info *nfpm.Info) (result []byte)
 //@   loop 1
 //@     invariant [C06] no-failure-so-far: !flag("failed")
+//
+//@ spec func opt(sep, s string) string {
+//@     if s == "" { return "" }
+//@     return sep + s
+//@ }
+//
+//@ spec func debVersion(version, prerelease, metadata, release string) string {
+//@     return version + opt("~", prerelease) + opt("+", metadata) + opt("-", release)
+//@ }
+//
+//@ spec func archOf(arch, override string) string {
+//@     if override != "" { return override }
+//@     return docArch(arch)
+//@ }
+//
+//@ func ensureValidArch(info *nfpm.Info) (result *nfpm.Info)
+//@   requires info != nil
+//@   ensures [C02 C15] documented-table-or-override: info.Arch == archOf(old(info.Arch), old(info.Deb.Arch))
+//@   ensures [C11 C15] idempotent: implies(old(info.Deb.Arch) == "", docArch(info.Arch) == info.Arch)
+//@   ensures [C11] same-object: result == info
+//@   modifies [C11 C12] &info.Arch
+//
+//@ func (d *Deb) ConventionalFileName(info *nfpm.Info) (result string)
+//@   requires info != nil
+//@   ensures [C15 C14 C02] name: result == old(info.Name) + "_" + debVersion(old(info.Version), old(info.Prerelease), old(info.VersionMetadata), old(info.Release)) + "_" + archOf(old(info.Arch), old(info.Deb.Arch)) + ".deb"
+//@   ensures [C15] extension: strings.HasSuffix(result, d.ConventionalExtension())
+//@   modifies [C11 C12] &info.Arch
